@@ -95,7 +95,19 @@ class NumpyProxy(types.ModuleType):
         return getattr(np, name)
 
 
-def sym_float(v=0.0):
+class _ShadowMeta(type):
+    """shadowed builtin: call passes Sym through, isinstance() behaves like the builtin"""
+    def __instancecheck__(cls, inst):
+        return isinstance(inst, cls._base)
+
+    def __subclasscheck__(cls, sub):
+        return issubclass(sub, cls._base)
+
+    def __call__(cls, *a, **kw):
+        return cls._conv(*a, **kw)
+
+
+def _conv_float(v=0.0):
     if isinstance(v, Sym):
         if not v.im.is_zero():
             raise TypeError("float() argument must be real, not complex Sym")
@@ -103,16 +115,31 @@ def sym_float(v=0.0):
     return builtins.float(v)
 
 
-def sym_complex(*a):
+def _conv_complex(*a):
     if a and isinstance(a[0], Sym):
         return Sym(a[0].re, a[0].im, True)
     return builtins.complex(*a)
 
 
-def sym_int(v=0, *a):
+def _conv_int(v=0, *a):
     if isinstance(v, Sym):
         return builtins.int(v)      # raises SymError unless constant
     return builtins.int(v, *a)
+
+
+class sym_float(metaclass=_ShadowMeta):
+    _base = builtins.float
+    _conv = staticmethod(_conv_float)
+
+
+class sym_complex(metaclass=_ShadowMeta):
+    _base = builtins.complex
+    _conv = staticmethod(_conv_complex)
+
+
+class sym_int(metaclass=_ShadowMeta):
+    _base = builtins.int
+    _conv = staticmethod(_conv_int)
 
 
 def _dispatch(orig, stub):
